@@ -248,6 +248,8 @@ def r7_scheme_identity(ctx):
 
 
 def run(ctx):
+    from . import effects
+    effects.check_property(ctx, "C19")    # R19.E: no operation on shared protocol state outside the reviewed table
     from . import C05
     r7_scheme_identity(ctx)
     from . import C10
